@@ -78,6 +78,8 @@ def cmd_seeds():
         'direct', 'state', 'info', 'grab', 'grab result all', 'grab result decode', 'scan', 'scan 08', 'scan full', 'scan result', 'log', 'log bus debug', 'raw', 'raw bytes', 'dump',
         'define "r,x,y,,,08,b509,0d30,v,,UCH"', 'define -r "r,c1,temp,,,08,b509,0d01,t,,D2B"', 'decode -v UCH 65', 'decode "v,,D2C;w,,BDA" 50010a0b0c', 'encode D2C 21.5',
         'encode "a,,UCH;b,,STR:3" 5;abc', 'read -def "r,z,z,,,08,b509,0d31,v,,UIN" ', 'write -def "w,z,z,,,08,b509,0e31,v,,UIN" 5', 'auth u1 s1', 'answer 36070400 0a', 'answer -m 10 31b509 00',
+        'decode uch;uch 0102', 'encode uch;uch 1;2', 'decode -v d2c,,C;bda 50010a0b0c11', 'decode -V -n uch,0=off;1=on;str:3 01616263', 'encode str:3;uin,10 abc;12.5',
+        'GET /decode?def=uch;uch&raw=0102 HTTP/1.1', 'decode tempsensor 500101', 'decode temp;temp 50015001', 'e temp 21.5',
         'help', 'help read', 'read ?', 'quit', 'reload', 'r', 'w', 'f -c', 'read -s', 'read -d zz temp', 'read -i 5;x temp', "read 'te mp'", 'read "temp" "t.0"',
         'GET / HTTP/1.1', 'GET /data HTTP/1.1', 'GET /data/c1/temp?required&verbose&def HTTP/1.1', 'GET /data/c2?since=1&poll=3&exact=1&full&raw&write HTTP/1.0',
         'GET /data/c1/x?define=r,c1,x,,,08,b509,0d40,v,,UCH&user=u1&secret=s1 HTTP/1.1', 'GET /datatypes HTTP/1.1', 'GET /templates HTTP/1.1', 'GET /templates/c1 HTTP/1.1',
